@@ -663,11 +663,9 @@ func (w *world) browser(c *client) {
 }
 
 // navigator is a browser tab that follows links between boards: every navigation is a page
-// GET, which makes the server switch the board it renders and request a compile. The
-// simulator only lets a GET start while no compile is in progress: handleRoot takes the
-// mutex the compile loop holds across a compile, and a goroutine blocked on a mutex keeps a
-// synctest bubble from quiescing. The mutex serialises the two anyway, so only "GET waits
-// for the compile to end" is not explored; "compile starts right after the GET" is.
+// GET, which makes the server switch the board it renders and request a compile. handleRoot
+// takes the mutex the compile loop holds across a compile; since d2's mutexes are simulated
+// (sched.MutexSim) a GET may arrive during a compile and waits for it.
 func (w *world) navigator(n int) {
 	defer w.navsDone.Store(true)
 	for i := 0; i < n; i++ {
@@ -844,7 +842,7 @@ func runInBubble(hcfg harness.Config, idx int, tp *tape.Tape, dir string, res *h
 	w.attached = w.cfg.imports
 	sim.TimeWeight = 1
 	for _, cl := range []string{"req", "compile.wait", "compile.start", "compile.bcast", "bcast.res", "bcast.clients", "ws.admit", "ws.accept", "ws.register",
-		"wl.getres", "wl.wait", "close", "close.cancel", "close.wait", "fs", "layout", "fsn", "kernel", "editor", "browser", "hs-send", "hs-mid", "hs-await", "hs-fail", "nav"} {
+		"wl.getres", "wl.wait", "close", "close.cancel", "close.wait", "fs", "layout", "fsn", "kernel", "editor", "browser", "hs-send", "hs-mid", "hs-await", "hs-fail", "nav", "lk", "lw"} {
 		sim.ClassWeight[cl] = 2 + tp.Draw(10, "cfg.w."+cl)
 	}
 	sim.ClassWeight["operator"] = 0
@@ -884,6 +882,22 @@ func runInBubble(hcfg harness.Config, idx int, tp *tape.Tape, dir string, res *h
 	verifhook.ListenerFn = func() net.Listener { return w.lis }
 	fs := &simfs.FS{Root: dir, Handler: w.fsHandler}
 	simfs.Install(fs)
+	// d2's own mutexes are the simulator's: every attempt to take one is a scheduling point,
+	// and finding it taken leads back to the scheduling point, not into the runtime.
+	msim := &sched.MutexSim{Sim: sim, Name: func() string {
+		w.mu.Lock()
+		n := w.gidName[runtime.VerifGID()]
+		w.mu.Unlock()
+		if n == "" {
+			n = "g" + sched.GID()
+		}
+		return n
+	}}
+	uninstallMutexes := msim.Install()
+	defer func() {
+		w.res.ProbeN("d2_mutex_lock_attempts_scheduled", int(msim.Attempts.Load()))
+		w.res.ProbeN("d2_mutex_locks_that_found_the_mutex_taken", int(msim.Contended.Load()))
+	}()
 	// The stub layout engine is a scheduling point in the middle of a compile (after the
 	// sources were read, before the result exists): the place where a real compile spends
 	// its time.
@@ -894,6 +908,7 @@ func runInBubble(hcfg harness.Config, idx int, tp *tape.Tape, dir string, res *h
 	}
 	defer func() {
 		stubplugin.P.Before = nil
+		uninstallMutexes()
 		simfs.Uninstall()
 		verifhook.YieldFn, verifhook.TraceFn, verifhook.ListenerFn = nil, nil, nil
 		fsnotify.SimNewBackend = nil
@@ -978,12 +993,7 @@ func runInBubble(hcfg harness.Config, idx int, tp *tape.Tape, dir string, res *h
 			}
 			sim.ClassWeight["operator"] = wgt
 		}
-		// a page GET may only start while no compile holds the board-path mutex
-		if w.inCompile.Load() {
-			sim.ClassWeight["nav"] = 0
-		} else {
-			sim.ClassWeight["nav"] = w.baseWeight["nav"]
-		}
+		sim.ClassWeight["nav"] = w.baseWeight["nav"]
 		if w.editsDone.Load() && w.navsDone.Load() {
 			extra++
 			if w.cfg.profile == "C44" && extra > w.cfg.extraStep {
